@@ -119,7 +119,7 @@ Definition image (st : stage_code) (k : nat) (xs : list Z) : list Z :=
   | SFilter p, 0%nat => filter (papply p) xs
   | SPartition p, 0%nat => filter (papply p) xs
   | SPartition p, _ => filter (fun x => negb (papply p x)) xs
-  | STake n, 0%nat => firstn (Z.to_nat n) xs
+  | STake n, 0%nat => firstn (Z.to_nat (Z.min n (Z.of_nat (length xs)))) xs   (* = firstn (Z.to_nat n) xs (Pipe/PoolStages2.take_image), computable for huge n *)
   | STakeWhile p, 0%nat => take_while (papply p) xs
   | SFold m, 0%nat => [fold_left (mon_combine m) xs (mon_empty m)]
   | SJoin _, 0%nat => xs
